@@ -1,6 +1,6 @@
 (* Properties/C09.v -- Poisson sampling: independent inclusion at the accounted rate, empties kept. *)
 From Coq Require Import ZArith List Bool Sorting.Sorted.
-From OV Require Import Base.Num Base.NumZ Base.NumF Base.Py Model.Sampler Gen.Engine Gen.SamplerPins Proofs.SamplerP.
+From OV Require Import Base.Num Base.NumZ Base.NumF Base.Py Model.Sampler Model.Batch Gen.Engine Gen.SamplerPins Proofs.SamplerP Proofs.BatchP.
 Import ListNotations.
 
 (* a Poisson batch (mask = torch.rand(N) < q; mask.nonzero()): strictly increasing -- hence duplicate free --, within
@@ -33,6 +33,20 @@ Theorem C09_strided_shards_partition {A} (d : A) (l : list A) (W : nat) : (0 < W
   (forall r, (r < W)%nat -> length (shard r W l) = (length l / W + (if Nat.ltb r (length l mod W) then 1 else 0))%nat).
 Proof. exact (strided_shards_partition d l W). Qed.
 
+(* empty batches: the batch DPDataLoader delivers for an empty draw is its prepared template cut to length zero (empty_like_batch, pinned
+   branch by branch to Model/Batch.empty_like).  For EVERY batch structure -- tensors, mappings, lists / tuples / named tuples, nested to any
+   depth, per-sample strings, other leaves -- it has the structure, trailing shapes and dtypes of the batch it was derived from, every batch
+   extent is zero, and cutting is idempotent; hence whatever the number of drawn samples, the delivered batch has the skeleton of a
+   one-sample batch (for a collate function whose batches have one skeleton) *)
+Theorem C09_empty_batch_structure (b : btree) :
+  skeleton (empty_like b) = skeleton b /\ Forall (fun n => n = 0%nat) (extents (empty_like b)) /\ empty_like (empty_like b) = empty_like b.
+Proof. exact (conj (empty_like_skeleton b) (conj (empty_like_extents b) (empty_like_idem b))). Qed.
+Theorem C09_collate_delivers_one_structure (collate_fn : nat -> btree) (n : nat) :
+  (forall k, (0 < k)%nat -> skeleton (collate_fn k) = skeleton (collate_fn 1%nat)) ->
+  skeleton (dp_collate collate_fn (empty_like (collate_fn 1%nat)) n) = skeleton (collate_fn 1%nat) /\
+  (n = 0%nat -> Forall (fun e => e = 0%nat) (extents (dp_collate collate_fn (empty_like (collate_fn 1%nat)) n))).
+Proof. exact (dp_collate_skeleton collate_fn n). Qed.
+
 Example C09_nonvacuous :
   mask_indices (sample_mask (T:=Z) 5%Z [7; 2; 5; 4; 9; 0]%Z) = [1; 3; 5]%Z /\ shard 1 3 [10; 11; 12; 13; 14; 15; 16]%Z = [11; 14]%Z.
 Proof. split; reflexivity. Qed.
@@ -41,3 +55,5 @@ Print Assumptions C09_batch_indices_spec.
 Print Assumptions C09_batches_per_epoch.
 Print Assumptions C09_rate_is_accounted_rate.
 Print Assumptions C09_strided_shards_partition.
+Print Assumptions C09_empty_batch_structure.
+Print Assumptions C09_collate_delivers_one_structure.
